@@ -73,7 +73,7 @@ func (context *CHFContext) NewCHFUe(supi string) (*ChfUe, error) {
 	if ue, ok := context.ChfUeFindBySupi(supi); ok {
 		return ue, nil
 	}
-	if strings.HasPrefix(supi, "imsi-") {
+	if isImsiSupi(supi) {
 		ue := ChfUe{}
 		ue.init()
 
@@ -85,6 +85,24 @@ func (context *CHFContext) NewCHFUe(supi string) (*ChfUe, error) {
 	} else {
 		return nil, fmt.Errorf(" add Ue context fail ")
 	}
+}
+
+// isImsiSupi reports whether supi is "imsi-" followed by 5 to 15 digits (TS 23.003).
+// The SUPI becomes part of the subscriber's CDR file name, so nothing else may pass.
+func isImsiSupi(supi string) bool {
+	if !strings.HasPrefix(supi, "imsi-") {
+		return false
+	}
+	digits := supi[len("imsi-"):]
+	if len(digits) < 5 || len(digits) > 15 {
+		return false
+	}
+	for _, c := range digits {
+		if c < '0' || c > '9' {
+			return false
+		}
+	}
+	return true
 }
 
 func (context *CHFContext) ChfUeFindBySupi(supi string) (*ChfUe, bool) {
